@@ -7,6 +7,7 @@ import (
 	"encoding/json"
 	"flag"
 	"fmt"
+	"hash/fnv"
 	"io"
 	"net/http"
 	"net/http/httptest"
@@ -70,6 +71,54 @@ func mutate(rng interface {
 	return out
 }
 
+// piecesReader hands out its content piece by piece: one Read never crosses a cut.
+type piecesReader struct {
+	b    []byte
+	cuts []int // ascending offsets at which a Read ends
+}
+
+func (p *piecesReader) Read(dst []byte) (int, error) {
+	if len(p.b) == 0 {
+		return 0, io.EOF
+	}
+	n := len(p.b)
+	if len(p.cuts) > 0 {
+		n = p.cuts[0]
+	}
+	if n > len(dst) {
+		n = len(dst)
+	}
+	copy(dst, p.b[:n])
+	p.b = p.b[n:]
+	for i := range p.cuts {
+		p.cuts[i] -= n
+	}
+	for len(p.cuts) > 0 && p.cuts[0] <= 0 {
+		p.cuts = p.cuts[1:]
+	}
+	return n, nil
+}
+
+// deliver chooses the delivery of a body from its content (so that a run is reproducible): whole, two pieces, or one piece per line.
+func deliver(body []byte) io.Reader {
+	h := fnv.New32a()
+	h.Write(body)
+	v := h.Sum32()
+	switch {
+	case len(body) < 2 || v%3 == 0:
+		return bytes.NewReader(body)
+	case v%3 == 1:
+		return &piecesReader{b: body, cuts: []int{1 + int(v/3)%(len(body)-1)}}
+	}
+	var cuts []int
+	for i, c := range body {
+		if c == '\n' && i+1 < len(body) {
+			cuts = append(cuts, i+1)
+		}
+	}
+	return &piecesReader{b: body, cuts: cuts}
+}
+
 // serve calls the handler and turns a panic into status -1.
 func serve(h http.Handler, body []byte) (status int, ctype string, rb []byte) {
 	defer func() {
@@ -77,7 +126,10 @@ func serve(h http.Handler, body []byte) (status int, ctype string, rb []byte) {
 			status, rb = -1, []byte(fmt.Sprint(r))
 		}
 	}()
-	req := httptest.NewRequest(http.MethodPost, "/", bytes.NewReader(body))
+	// how the body REACHES the handler is the network's business, not the sender's: in one piece, in two (cut anywhere), or line by line
+	// (a streamed sender, a relay, HTTP/2 DATA frames); the declared length is the same in every case
+	req := httptest.NewRequest(http.MethodPost, "/", deliver(body))
+	req.ContentLength = int64(len(body))
 	rec := httptest.NewRecorder()
 	h.ServeHTTP(rec, req)
 	resp := rec.Result()
